@@ -189,7 +189,7 @@ def run(task: dict) -> dict:
         ops = [(k, n) for k, n in toks if k != "atom"]
 
         def fn(e, toks=toks, ops=ops):
-            pv = {n: e.int_var("prec_" + n, 1, 12) for _k, n in ops}
+            pv = {n: e.int_var("prec_" + n, 0, 12) for _k, n in ops}
             av = {n: e.bool_var("rassoc_" + n) for k, n in ops if k == "infix"}
             # ties between operators of different fixity are not defined by the statement
             for (k1, n1), (k2, n2) in itertools.combinations(ops, 2):
@@ -343,10 +343,10 @@ def main(tier: str, seed: int, args) -> int:
         "model_checking",
         results,
         t0=t0,
-        rule="one case = one feasible path of the real PrattParser.parse_expr on an enumerated stream shape with every operator occurrence's precedence (1..12) and associativity symbolic; paths partition the tables by the relative order of the precedences; the returned tree must consume the stream, keep the in-order leaves and satisfy the validity predicate",
+        rule="one case = one feasible path of the real PrattParser.parse_expr on an enumerated stream shape with every operator occurrence's precedence (0..12) and associativity symbolic; paths partition the tables by the relative order of the precedences; the returned tree must consume the stream, keep the in-order leaves and satisfy the validity predicate",
         assumptions=[
             "operators of different fixity never have equal precedence; equal-precedence infix operators have equal associativity (the statement defines neither)",
-            "precedences range over 1..12 (only their relative order matters to the code); <= 4 operands, <= 2 prefix/postfix per operand, total operators <= 5 (quick) / 7 (thorough)",
+            "precedences range over 0..12 (only their relative order - and being 0 or not - matters to the code); <= 4 operands, <= 2 prefix/postfix per operand, total operators <= 5 (quick) / 7 (thorough)",
             "every operator occurrence has its own table entry (shared entries are the equal-values special case)",
         ],
         extra_cov={"stream_shapes": len(sh), "canary": "postfix-precedence-ignored detected"},
